@@ -249,6 +249,12 @@ def run_case(rec, si, bi, sched, seed, g=None):
     if bi >= len(bs):
         return
     binding = bs[bi]
+    # dummy names are opaque: in a third of the cases they are spelled like the real axes, crosswise
+    style = (si + sched) % 3
+    if style:
+        ren = {"p": "X", "q": "Y"} if style == 1 else {"p": "Y", "q": "X"}
+        sig = tuple([tuple((ren[n_], p) for n_, p in a) for a in part] for part in sig)
+        binding = {ren[k]: v for k, v in binding.items()}
     ins, outs = sig
     case = dict(kind="sig", si=si, bi=bi, sched=sched, text=G.unparse(sig), binding=binding)
     if g is None:
